@@ -42,6 +42,9 @@ func decExec(c core.Case) core.Case {
 	}
 	if ec == "error" {
 		out["obj"] = dirtyMarker
+		if s := usableAfterFailure(m); s != "" {
+			out["chk"] = s
+		}
 	} else {
 		out["obj"] = Project(m)
 		if s := reflectContract(m); s != "" {
